@@ -28,6 +28,8 @@ CLAIMED = {
          TRUST + " Not proved functionally: the pairing of HKEYS/HVALS, the counts of SCARD/ZCARD/SISMEMBER, the permutation computed by ReverseBy (ZREVRANGE element order), MSET/MSETNX/HMSET over Go map iteration, CONFIG SET contents. Primitive handler operations are assumed to behave like Redis.", TECH, "DESIGN.md §9 C12"),
  "C13": ("Frame obligations: every executor, executeCommand and handleMessage are proved to write no Conn field except id/authrized/username/password/hasPassword of the conn parameter (and argument cursors, string maps, ghost logs); newConnWith returns a fresh object with id 0, unauthorized, empty credentials; Database/SetDatabase/Select read and write exactly the receiver's field.",
          TRUST + " Concurrency: other connections run the same code on their own Conn object; that no other goroutine writes this Conn is an ownership argument from these frames, not an explored interleaving.", TECH, "DESIGN.md §9 C13"),
+ "C17": ("regexpFromGlob is proved, for every pattern (all byte values, any length; loop invariant over the strings.Builder ghost buffer), to return exactly \"(?s)^\" ++ T(p[0]) ++ ... ++ T(p[n-1]) ++ \"$\" where T('*') = \".*\", T('?') = \".\", T(c) = backslash c for the twelve regular-expression metacharacters and T(c) = c otherwise (byte-level specification gOff/tr0/tr1 written independently of the code); Compile/MustCompile pass exactly that string to regexp.Compile and never fail or panic on ASCII patterns; nextScanArgument is proved to return a matcher produced by glob.Compile/MustCompile (ghost provenance is_glob/glob_of), equal to the glob of the MATCH argument for 'SCAN c MATCH p' and to \"*\" without options, and the SCAN executor hands that matcher to the handler; the example store's KEYS and SCAN return only keys k with globMatch(pattern, k) and KEYS compiles with glob.Compile, so both select with the same matcher for the same pattern.",
+         TRUST + " ASSUMED (regexp package, not verified): a translation of an ASCII glob is a valid RE2 expression, and the compiled matcher decides Redis glob matching (spec function globMatch). Patterns with invalid UTF-8 are rejected by regexp.Compile (KEYS then returns an error; outside the property's alphabet). Completeness of KEYS/SCAN (every matching key is returned) is not proved: sync.Map.Range with a closure is outside the contract language.", TECH, "DESIGN.md §9 C17"),
  "C19": ("receive is proved to leave the socket closed (ghost sock_closed set by net.Conn.Close) and the registry domain no larger than on entry at every return: certificate rejection, parser error, end of stream, QUIT; Close is idempotent; AddConn/RemoveConn add and remove exactly the connection's uuid.",
          TRUST + " Not decided: a client that stops reading, RST timing, goroutine/descriptor counts under churn, ConnManager.Close/Stop and the accept loops (pending).", TECH, "DESIGN.md §9 C19"),
  "C20": ("Ghost span stack: the root span is started only when none is open and finished exactly once with no child open on every path of the connection loop; executeCommand and every executor restore the child depth (defer FinishSpan pairs with StartSpan on all paths, composed commands re-enter executeCommand under the same contract).",
